@@ -52,6 +52,11 @@ def record(cfg, path, call):
         rec["u_post"] = post
         rec["r_ret"] = False
         rec["r_post"] = post
+    # freshly issued node ids (advances a counter that is not observable state: asked last)
+    try:
+        rec["newids"] = [int(x) for x in drv.tracks._get_new_node_ids(3)]
+    except Exception as e:  # noqa: BLE001
+        rec["newids"] = [-1, -1, -1]
     return rec
 
 
